@@ -26,6 +26,9 @@ def answer (cfg : Cfg) (s : St) (ws : List String) : Cfg × St × String :=
     | some p => (cfg, addEntity s p (parseEnt e), "done")
     | none => (cfg, s, "bad-op")
   | ["discover", _] => (cfg, s, "done")
+  | ["reconnect", p] => match p.toNat? with
+    | some p => (cfg, { s with rem := fun q => if q = p then remoteFeats else s.rem q }, "done")
+    | none => (cfg, s, "bad-op")
   | ["subspass", p, e] => match p.toNat? with
     | some p => (cfg, subsPass s p (parseEnt e), "done")
     | none => (cfg, s, "bad-op")
